@@ -109,6 +109,10 @@ pub struct Cfg {
     pub hs: [HSpec; 4],
     /// pinned sketch seed (std build); None = clock-seeded
     pub sketch_seed: Option<u64>,
+    /// which of four builder call sequences constructs the cache (entry point and the order
+    /// of the setters; same configuration in the end)
+    #[serde(default)]
+    pub perm: u8,
 }
 
 impl Cfg {
@@ -124,6 +128,7 @@ impl Cfg {
             kh: KhSpec::Ident,
             hs: [HSpec::Fnv(1), HSpec::Fnv(2), HSpec::Fnv(3), HSpec::Fnv(4)],
             sketch_seed: Some(7),
+            perm: 0,
         }
     }
     pub fn quota_2q(&self) -> usize {
